@@ -79,7 +79,7 @@ var specs = map[string]spec{
 		Level:     "model_checking",
 		Rule:      "a state is a distinct bundle (body x declarations x mutation); a transition is one compilation (plus one probed render when accepted); every case is non-trivial (a verdict accept/reject is compared)",
 		Bounds: map[string]string{
-			"quick":    "all C02 bodies unmutated; mutations (7 site kinds at every site, declaration drops, unused param, both declaration styles) on every third body",
+			"quick":    "all C02 bodies unmutated; mutations (7 site kinds at every site, declaration drops, unused param, both declaration styles) on every sixth body",
 			"thorough": "mutations on every body; nested blocks over inner lists of <=2 leaves",
 		},
 		Assumptions: commonAssumptions, Plain: true, QuickStride: 1, ThoroughStride: 2, QuickDeadline: 420, ThoroughDeadline: 3000,
@@ -140,7 +140,7 @@ var specs = map[string]spec{
 		Rule:      "a state is a (message body, meaning) pair; transitions = compilations under distinct map orders and surroundings (counter map_orders_explored); every case is non-trivial (id and names compared)",
 		Bounds: map[string]string{
 			"quick":    "bodies of <=3 parts over 26 parts (meanings on bodies <=2), 5 plural variables x 8 case sets x a fifth of 42 bodies; 4 surroundings each; map-order deviation bound 2",
-			"thorough": "bodies of <=4 parts, all plural bodies, deviation bound 3",
+			"thorough": "deviation bound 3; additionally all 4-part bodies over the 10 colliding parts; all plural bodies",
 		},
 		Assumptions: commonAssumptions, Plain: true, QuickStride: 1, ThoroughStride: 3, QuickDeadline: 420, ThoroughDeadline: 3000, OrderSensitive: true,
 	},
